@@ -236,4 +236,15 @@ Section Model.
   (* ExceptionInfo.get_formatted *)
   Definition ei_formatted (cs : list callpoint) (ty msg : str) : str :=
     tbi_formatted cs ++ ei_exc_only ty msg.
+
+  (* _some_str(value): str(value), or a placeholder naming the type when that raises *)
+  Definition M_unprintable1 : str := [60;117;110;112;114;105;110;116;97;98;108;101;32].   (* <unprintable + blank *)
+  Definition M_unprintable2 : str := [32;111;98;106;101;99;116;62].                       (* blank + object> *)
+  Definition ei_msg (e : live_exc) : str :=
+    match ex_str e with Some s => s | None => M_unprintable1 ++ ex_name e ++ M_unprintable2 end.
+
+  (* ExceptionInfo.from_exc_info(type, value, tb).get_formatted() as a function of what the
+     interpreter reports about the traceback and the exception *)
+  Definition ei_text (fs : list live_frame) (e : live_exc) : str :=
+    ei_formatted (map cp_of_live fs) (ei_type (ex_module e) (ex_qualname e)) (ei_msg e).
 End Model.
